@@ -5,6 +5,7 @@ import (
 	"compress/gzip"
 	"fmt"
 	"io"
+	"os"
 	"runtime"
 	"sort"
 	"strings"
@@ -46,7 +47,43 @@ func stepBound(n int) int { return n/60 + 2 }
 // checkArBytes iterates raw as an ar archive and checks the C15 invariants.
 // It returns the number of members returned.
 func checkArBytes(raw []byte, eager bool) (int, error) {
-	cr := &countingReaderAt{r: bytes.NewReader(raw), eager: eager}
+	return checkArOn(&countingReaderAt{r: bytes.NewReader(raw), eager: eager}, raw)
+}
+
+// checkArSized: the same invariants when the source knows its size and says so - a bytes.Reader
+// (Size), a window of a larger buffer with a good archive behind the window's end
+// (io.SectionReader) and, for one input in eight, a file on disk (Stat)
+func checkArSized(raw []byte) error {
+	if _, err := checkArOn(bytes.NewReader(raw), raw); err != nil {
+		return errf("read from a bytes.Reader: %v", err)
+	}
+	front := []byte("JUNK-IN-FRONT-")
+	big := append(append(append([]byte{}, front...), raw...), renderAr([]ArMember{{Name: "behind-window", Mode: "100644", Data: []byte("not part of the input")}, {Name: "control.tar", Mode: "100644", Data: []byte("x")}})...)
+	if _, err := checkArOn(io.NewSectionReader(bytes.NewReader(big), int64(len(front)), int64(len(raw))), raw); err != nil {
+		return errf("read as an io.SectionReader window of a larger buffer: %v", err)
+	}
+	sum := 0
+	for _, b := range raw {
+		sum += int(b)
+	}
+	if sum%8 == 0 {
+		f, err := os.CreateTemp(workDir(), "c15-*.ar")
+		if err != nil {
+			return errf("HARNESS: %v", err)
+		}
+		defer os.Remove(f.Name())
+		defer f.Close()
+		if _, err := f.Write(raw); err != nil {
+			return errf("HARNESS: %v", err)
+		}
+		if _, err := checkArOn(f, raw); err != nil {
+			return errf("read from a file: %v", err)
+		}
+	}
+	return nil
+}
+
+func checkArOn(cr io.ReaderAt, raw []byte) (int, error) {
 	ar, err := deb.LoadAr(cr)
 	if err != nil {
 		if ar != nil {
@@ -287,8 +324,30 @@ func paxSparseEntry(name string, realsize int64) []byte {
 	return append(out, rawTarEntry("GNUSparseFile.0/"+strings.TrimPrefix(name, "./"), '0', "0\n"+string(make([]byte, 510)))...)
 }
 
+// paxSparseOldEntry: the older PAX spellings of a sparse entry, which carry no GNU.sparse.major
+// record: format 0.1 (numblocks + map, the real size under "size" or - as star and later GNU tar
+// write it - under "realsize") and format 0.0 (one offset/numbytes pair per fragment). The entry
+// stores just `text`; read through archive/tar it is `hole` made-up NUL bytes followed by text.
+func paxSparseOldEntry(name string, hole int64, text string, variant string) []byte {
+	var records string
+	total := fmt.Sprint(hole + int64(len(text)))
+	switch variant {
+	case "0.1-realsize":
+		records = paxRecord("GNU.sparse.numblocks", "1") + paxRecord("GNU.sparse.map", fmt.Sprintf("%d,%d", hole, len(text))) + paxRecord("GNU.sparse.realsize", total)
+	case "0.1-size":
+		records = paxRecord("GNU.sparse.size", total) + paxRecord("GNU.sparse.numblocks", "1") + paxRecord("GNU.sparse.map", fmt.Sprintf("%d,%d", hole, len(text)))
+	default: // 0.0
+		records = paxRecord("GNU.sparse.numblocks", "1") + paxRecord("GNU.sparse.offset", fmt.Sprint(hole)) + paxRecord("GNU.sparse.numbytes", fmt.Sprint(len(text))) + paxRecord("GNU.sparse.realsize", total)
+	}
+	out := rawTarEntry("PaxHeaders.0/"+strings.TrimPrefix(name, "./"), 'x', records)
+	return append(out, rawTarEntry(name, '0', text)...)
+}
+
 func checkBytesCase(c BytesCase, r *Recorder) error {
 	members, err := checkArBytes(c.Raw, c.Eager)
+	if err == nil {
+		err = checkArSized(c.Raw)
+	}
 	if err == nil {
 		first := arEnd(c.Raw)
 		for k := 0; k < 6; k++ {
@@ -435,7 +494,7 @@ func genCorruptArchive(t *rapid.T) BytesCase {
 		// the hostile part sits one level down: the control member is a tar whose './control' entry
 		// is a sparse file (old GNU 'S' header: a few bytes stored, a huge logical size the tar reader
 		// fills with NULs it makes up), a directory, a symlink, or declares more data than there is
-		kind := rapid.SampledFrom([]string{"sparse-2^20", "sparse-2^40", "sparse-2^62", "dir", "symlink", "short", "pax-sparse-control", "pax-sparse-other-before", "pax-sparse-other-after", "size-claim-2^62", "size-claim-2^55", "size-claim-other-2^62", "many-continuation-lines", "huge-dependency-token", "clearsigned-control"}).Draw(t, "tarkind")
+		kind := rapid.SampledFrom([]string{"sparse-2^20", "sparse-2^40", "sparse-2^62", "dir", "symlink", "short", "pax-sparse-control", "pax-sparse-other-before", "pax-sparse-other-after", "pax-sparse-0.1-realsize", "pax-sparse-0.1-size", "pax-sparse-0.0", "size-claim-2^62", "size-claim-2^55", "size-claim-other-2^62", "many-continuation-lines", "huge-dependency-token", "clearsigned-control"}).Draw(t, "tarkind")
 		note = "tarlevel:" + kind
 		var ctl []byte
 		gzControl := false
@@ -455,6 +514,10 @@ func genCorruptArchive(t *rapid.T) BytesCase {
 			default:
 				ctl = append(append([]byte{}, good...), paxSparseEntry("./triggers", 1<<40)...)
 			}
+			ctl = append(ctl, make([]byte, 1024)...)
+		case "pax-sparse-0.1-realsize", "pax-sparse-0.1-size", "pax-sparse-0.0":
+			// the older PAX spellings (no GNU.sparse.major record): the control text behind a hole
+			ctl = paxSparseOldEntry("./control", rapid.SampledFrom([]int64{1 << 40, 1 << 62, 1 << 33}).Draw(t, "hole"), "Package: x\nVersion: 1\nArchitecture: all\nMaintainer: A <a@b.c>\nDescription: d\n", strings.TrimPrefix(kind, "pax-sparse-"))
 			ctl = append(ctl, make([]byte, 1024)...)
 		case "size-claim-2^62", "size-claim-2^55", "size-claim-other-2^62":
 			// a regular, non-sparse entry whose header claims (GNU base-256 size field) far more
@@ -623,7 +686,7 @@ func genCorruptArchive(t *rapid.T) BytesCase {
 
 var specC15Corrupt = Register(&Spec[BytesCase]{
 	Prop: "C15", Name: "corrupt",
-	Rule:  "structured corruption of valid artefacts (C13 archives and C14 packages with stored/gzip members): one header column (name, mtime, uid, gid, mode, size, magic) of one member overwritten with negative, '+'-signed, huge, blank, non-numeric, NUL, hex or overflowing text; 2..4 numeric columns of one header made non-numeric at once; a member renamed '//' and later ones '/<offset>' (GNU long-name table and references); the control member replaced by a stored tar whose './control' entry is a GNU sparse file of 2^20 / 2^40 / 2^62 made-up bytes, a directory, a symlink, or cut short, or which carries - as ./control or next to it - a PAX-style sparse entry of 2^40 made-up bytes, or a regular entry (./control or the file in front of it) whose base-256 size field claims 2^55 or 2^62 bytes, or replaced by a few KiB of gzip whose './control' is one field with 500 000 to 800 000 continuation lines (it has to be read in a time that does not grow with the square of that), or whose Depends is one token of 600 000 to 1 000 000 bytes, or whose './control' comes wrapped in a clearsign frame (with / without Hash: header, empty line, signature, END line); one or both header magic bytes changed; truncation at a generated offset; a member duplicated (same or changed content), members reordered, a decoy control.*/data.* member with another extension (optionally a tar with 'Package: evil') inserted; the control or data member made unopenable (renamed to .txt / .bin, emptied, its gzip header damaged); a padding byte added or removed; a global magic byte flipped. Oracle: no panic; the Next() loop ends in io.EOF or an error within len/60+2 steps; every returned member sits behind a header ending 0x60 0x0A, has Size >= 0 and a reader delivering exactly Size bytes; deb.Load stays within a read budget and returns within 20 s; seven iterations / loads of the same bytes, and one through an io.SectionReader window of a larger buffer with a valid archive behind it, give the same outcome (the same error text, or the same extensions, control identity and member index). Non-trivial: >= 1 member returned or a first header parsed; distinct by bytes.",
+	Rule:  "structured corruption of valid artefacts (C13 archives and C14 packages with stored/gzip members): one header column (name, mtime, uid, gid, mode, size, magic) of one member overwritten with negative, '+'-signed, huge, blank, non-numeric, NUL, hex or overflowing text; 2..4 numeric columns of one header made non-numeric at once; a member renamed '//' and later ones '/<offset>' (GNU long-name table and references); the control member replaced by a stored tar whose './control' entry is a GNU sparse file of 2^20 / 2^40 / 2^62 made-up bytes, a directory, a symlink, or cut short, or which carries - as ./control or next to it - a PAX-style sparse entry of 2^40 made-up bytes (format 1.0; as ./control also the older spellings without a version record - 0.1 with the real size under 'size' or 'realsize', 0.0 with offset/numbytes pairs - with the control text behind a hole of 2^33, 2^40 or 2^62 bytes), or a regular entry (./control or the file in front of it) whose base-256 size field claims 2^55 or 2^62 bytes, or replaced by a few KiB of gzip whose './control' is one field with 500 000 to 800 000 continuation lines (it has to be read in a time that does not grow with the square of that), or whose Depends is one token of 600 000 to 1 000 000 bytes, or whose './control' comes wrapped in a clearsign frame (with / without Hash: header, empty line, signature, END line); one or both header magic bytes changed; truncation at a generated offset; a member duplicated (same or changed content), members reordered, a decoy control.*/data.* member with another extension (optionally a tar with 'Package: evil') inserted; the control or data member made unopenable (renamed to .txt / .bin, emptied, its gzip header damaged); a padding byte added or removed; a global magic byte flipped. Oracle: no panic; the Next() loop ends in io.EOF or an error within len/60+2 steps; every returned member sits behind a header ending 0x60 0x0A, has Size >= 0 and a reader delivering exactly Size bytes - read through a plain io.ReaderAt that does not tell its size, and again through a bytes.Reader (Size), an io.SectionReader window of a larger buffer and (one input in eight) a file on disk (Stat); deb.Load stays within a read budget and returns within 20 s; seven iterations / loads of the same bytes, and one through an io.SectionReader window of a larger buffer with a valid archive behind it, give the same outcome (the same error text, or the same extensions, control identity and member index). Non-trivial: >= 1 member returned or a first header parsed; distinct by bytes.",
 	Check: checkBytesCase,
 })
 
